@@ -4,7 +4,10 @@
 id=$1; wt=$2; prop=${id%%-*}; shift 2
 cd $wt || exit 2
 PYTHONPATH=$wt timeout 1200 /venv/bin/python _deliver/demo.py > /tmp/demo-$id-with.log 2>&1; a=$?
-git stash -q; PYTHONPATH=$wt timeout 1200 /venv/bin/python _deliver/demo.py > /tmp/demo-$id-without.log 2>&1; b=$?; git stash pop -q
+# NB: git stash is shared between worktrees of one repository - never use it here
+git diff -- cubed > /tmp/try-$id.diff; git checkout -q -- cubed
+PYTHONPATH=$wt timeout 1200 /venv/bin/python _deliver/demo.py > /tmp/demo-$id-without.log 2>&1; b=$?
+git apply /tmp/try-$id.diff
 echo "demo with=$a without=$b"
 cd /verif
 for p in $prop "$@"; do
